@@ -1,9 +1,10 @@
 CFG = dict(
-    lean_modules=["SaramaVerif.Model.Producer", "SaramaVerif.Props.C01", "SaramaVerif.Props.C12"],
+    lean_modules=["SaramaVerif.Model.Producer", "SaramaVerif.Props.C01", "SaramaVerif.Props.C12", "SaramaVerif.Model.Feeder", "SaramaVerif.Props.C18c"],
     lean_support=["SaramaVerif.Driver.ProducerTrace", "SaramaVerif.Model.PartProd", "SaramaVerif.Model.IdemBroker"],
     model="C12",
     overlay=["sim", "c12"],
-    required_theorems=["Props.C12.shutdown_order", "Props.C12.close_once", "Props.C12.no_send_after_close",
+    required_theorems=["Props.C18c.step_inv", "Props.C18c.consumer_interceptors_once", "Props.C18c.deliver_follows_icept", "Props.C18c.one_ack_per_response", "Props.C18c.nothing_after_closed",
+                       "Props.C12.shutdown_order", "Props.C12.close_once", "Props.C12.no_send_after_close",
                        "Props.C12.outputs_closed_after_last_event", "Props.C12.no_accept_after_shutdown"],
     n={"quick": 220, "thorough": 3000, "search": 400},
     thorough_seeds=3,
